@@ -18,6 +18,7 @@
 //   <wire> <cache> <deframe verdict> <hdr> <body> <ztrace> <gunzip>
 // writev() and deflate() are interposed at link time (no change to the library).
 #include "common.h"
+#include <locale>
 #include <cppcms/service.h>
 #include <cppcms/application.h>
 #include <cppcms/applications_pool.h>
@@ -608,7 +609,7 @@ static std::string run_case(std::vector<std::string> const &w)
 	if(!done) note+=";app-not-done";
 	if(!twice_note.empty() && twice_note!="twice-identical" && twice_note!="closed-after-first") note = (note=="-") ? twice_note : note+";"+twice_note;
 	if(twice_note=="twice-identical") tot_twice++;
-	std::ostringstream r;
+	std::ostringstream r; r.imbue(std::locale::classic());
 	r<<vh::hex(wire)<<' '<<cache<<' '<<verdict<<' '<<vh::hex(d.hdr)<<' '<<vh::hex(d.body)<<' '<<note<<' '<<ztr<<' '<<(zin.empty()?"-":vh::hex(zin))<<' '<<gun
 	 <<" sched="<<ss<<'/'<<sw<<'/'<<sn<<'/'<<sc<<'/'<<sb<<" tw="<<(twice_note.empty()?"-":twice_note);
 	return r.str();
@@ -623,8 +624,16 @@ static int free_port()
 	int p=ntohs(a.sin_port); ::close(fd); return p;
 }
 
+// the embedding process may have installed a global locale with digit grouping: numbers in headers
+// (Content-Length, Status, ...) must still be written in the classic form
+struct c03_grouping : std::numpunct<char> {
+	char do_thousands_sep() const override { return ','; }
+	std::string do_grouping() const override { return "\3"; }
+};
+
 int main(int argc,char **argv)
 {
+	std::locale::global(std::locale(std::locale::classic(),new c03_grouping));
 	// argv: [gzip buffer] [output_buffer_size] [async_output_buffer_size]
 	int gzbuf = argc>1 ? atoi(argv[1]) : -1;
 	int obuf  = argc>2 ? atoi(argv[2]) : 16384;
@@ -691,7 +700,7 @@ int main(int argc,char **argv)
 		rc=4;
 	}
 	::unlink(g_scgi_path.c_str()); ::unlink(g_fcgi_path.c_str());
-	std::ofstream st("c03_stats.json");
+	std::ofstream st("c03_stats.json"); st.imbue(std::locale::classic());
 	st<<"{\"writev_calls\":"<<tot_calls<<",\"short_writes_injected\":"<<tot_short<<",\"would_blocks_injected\":"<<tot_wb
 	  <<",\"natural_short_writes\":"<<tot_natural<<",\"cases_with_short_write\":"<<tot_cases_with_short<<",\"cases_with_would_block\":"<<tot_cases_with_wb<<",\"keepalive_second_response_identical\":"<<tot_twice<<"}\n";
 	return rc;
